@@ -107,6 +107,48 @@ var plans = map[string]plan{
 		Quick:    []job{{"plain", 8}},
 		Thorough: []job{{"plain", 16}},
 	},
+	"C15": {
+		Level:    "exploration",
+		Rule:     "case = sequence of 1..8 WriteStringNocopy/WriteBinaryNocopy calls with lengths {0,1,100,4094,4095,4096,4097,8192,12288,20000} (exhaustive over all triples) into a linear buffer that is a window of a larger block (spare capacity 0/1/64), with a recording direct writer whose pieces are spliced independently at len(buf)-remainCap and compared with the copying-path bytes from an independent encoder; returned offset + direct pieces must equal the advertised length; nil writer must be byte-identical to the copying path; Base/BaseResp with every small/large field combination (byte compare when the map has <= 1 entry, decode compare otherwise), FastMarshal. Non-trivial iff >= 1 value >= 4096 with a writer attached; distinct by (length vector, API sequence, spare, writer).",
+		Required: []string{"direct pieces spliced", "nocopy sequences", "nil-writer sequences", "struct cases"},
+		Quick:    []job{{"plain", 8}},
+		Thorough: []job{{"plain", 16}},
+	},
+	"C16": {
+		Level:    "exploration",
+		Rule:     "case = run of strings/binaries decoded by thrift.Binary (lengths over every span-allocator class: 0, <128, every power of two +-1 up to 128 KiB, larger; runs of 200..800 values wrapping the 1 MiB spans) with the span cache off and on; every returned []byte is appended to and overwritten, then the input buffer is overwritten: input, siblings and snapshots must stay intact, and returned slices (incl. spare capacity) must not overlap the input; stream reader: values of a first message retained across Release, Recycle, pool reuse by a co-tenant and the decoding of a second message through a recycled BufferReader; decoded Base / ApplicationException / unknown-field trees after their input is overwritten. Non-trivial iff length >= 1; distinct by (lengths, reader kind, span-cache setting).",
+		Required: []string{"buffer-decoded values attacked", "stream-decoded values attacked", "structs attacked", "bytes decoded in runs"},
+		Quick:    []job{{"plain", 8}},
+		Thorough: []job{{"plain", 16}, {"race", 4}},
+	},
+	"C17": {
+		Level:    "exploration",
+		Rule:     "case = (entry point, malformed input) classified by the independent grammar oracle into cause sets {TRUNCATED, NEGATIVE, UNKNOWN_TYPE, DEPTH}: the error of Binary.Skip / Binary.Read* / ReadMessageBegin must be (or wrap) a *ProtocolException whose TypeId is in the accepted set (TRUNCATED, UNKNOWN_TYPE -> INVALID_DATA; NEGATIVE -> NEGATIVE_SIZE; bad first word -> BAD_VERSION; nesting >= 64 -> also DEPTH_LIMIT; simultaneous causes -> any). Inputs: grammar-alphabet strings (exhaustive), mutated encodings, negative sizes in every size position for all 11x11 element types, nesting 60..70. Stream reader: valid streams cut at every position with every injected error value (io.EOF, io.ErrUnexpectedEOF, two custom) with/after the final data: errors.Is(err, sourceErr) must hold for every Read*/Skip. Every case is a failure-class instance; distinct by (input, type).",
+		Required: []string{"skip failures classified", "reader failures classified", "message-begin failures classified", "stream failures classified", "negative-size cases", "source-error sweeps"},
+		Quick:    []job{{"plain", 8}},
+		Thorough: []job{{"plain", 16}},
+	},
+	"C18": {
+		Level:    "exploration",
+		Rule:     "case = error term built from {plain, fmt.Errorf(%w) chain, transport, protocol, application, foreign exception with TypeId(), foreign type embedding *ApplicationException, protocol exception wrapping any of these} with type ids over the default-message table, boundaries and random int32, empty and colliding texts, and a prefix (empty or not): PrependError must keep the exception kind class, the type id and produce prefix+text; NewProtocolExceptionWithErr must be the identity on protocol exceptions and otherwise keep errors.Unwrap(result)==cause and errors.Is(result, cause); errors.Is(receiver, target) over all ordered pairs of a pool (with look-alikes of equal / off-by-one type id and text in every kind) must equal the statement's definition evaluated by a small recursive model. Exhaustive kind x id x empty/non-empty text x empty/non-empty prefix grid. Every case is non-trivial; distinct by term description.",
+		Required: []string{"prepend cases", "wrappers built", "is-pairs compared", "is-pairs matching"},
+		Quick:    []job{{"plain", 8}},
+		Thorough: []job{{"plain", 16}},
+	},
+	"C19": {
+		Level:    "exploration",
+		Rule:     "case = random history of {Write, Read, ReadByte, Reset/Close, Truncate, IsOpen/Open/Flush} applied through the transport handle or the *bytes.Buffer handle of a buffer transport (created by NewBufferTransport or NewDefaultTransport) whose bytes.Buffer is embedded between a neighbouring buffer and live data; after every step transport, buffer and a plain bytes.Buffer model must agree (contents, Len, RemainingBytes) and adjacent memory must be intact; generic transport RemainingBytes for ReadableLen values {minInt..maxInt} and objects without ReadableLen; registered callbacks must receive the identical arguments and return the callback's result, unregistered ones three specific errors. Non-trivial iff both handles are used; distinct by history.",
+		Required: []string{"buffer histories", "generic transport cases", "callback cases"},
+		Quick:    []job{{"plain", 4}, {"race", 2}},
+		Thorough: []job{{"plain", 16}, {"race", 4}},
+	},
+	"C20": {
+		Level:    "exploration",
+		Rule:     "case = (conversion variant: the compiled go1.21+ file and the legacy pre-go1.21 file copied from /repo at check time, input shape): every length 0..300 and classes up to 1 MiB, byte slices with spare capacity 0/1/48, substrings at several offsets of a larger string backed by a mutable heap block with canary bytes; checks content, length, shared data pointer (a write through the slice is visible through the string), cap(StringToBinary(s)) == len(s), and that append(StringToBinary(s), ...) leaves the enclosing memory unchanged; nil / empty / zero-length-subslice inputs must not panic and must yield empty results. Non-trivial iff len >= 1 or the nil/empty distinction; distinct by (variant, shape).",
+		Required: []string{"conversions checked", "empty/nil inputs checked"},
+		Quick:    []job{{"plain", 2}, {"race", 2}},
+		Thorough: []job{{"plain", 4}, {"race", 2}, {"asan", 2}},
+	},
 }
 
 func init() {
